@@ -209,7 +209,14 @@ def deep_same(a, b, path="", out=None):
             out.append(f"{path}: tensor differs")
         return out
     if isinstance(a, np.ndarray):
-        if a.dtype != b.dtype or a.shape != b.shape or not np.array_equal(a, b, equal_nan=a.dtype.kind == "f"):
+        if a.dtype != b.dtype or a.shape != b.shape:
+            out.append(f"{path}: array dtype/shape {a.dtype}{a.shape} became {b.dtype}{b.shape}")
+        elif a.dtype == object:      # e.g. HerReplayBuffer.infos: an array of dicts - element by element, values and types
+            for idx, (x, y) in enumerate(zip(a.reshape(-1), b.reshape(-1))):
+                if len(out) > 20:
+                    break
+                deep_same(x, y, f"{path}.flat[{idx}]", out)
+        elif not np.array_equal(a, b, equal_nan=a.dtype.kind == "f"):
             out.append(f"{path}: array differs")
         return out
     if isinstance(a, float) and a != a:
@@ -839,8 +846,114 @@ def compare_model(case, impl, mv):
     return probs
 
 
-RUN = {"codec": run_codec, "model": run_model}
-COMPARE = {"codec": compare_codec, "model": compare_model}
+# ---------------------------------------------------------------- replay buffers saved on their own
+
+BUFFER_EXCLUDED = {"env"}     # HerReplayBuffer documents that the env is not pickled (set_env after loading); nothing else may be dropped
+
+
+def gen_buffer_spec(rng):
+    kind = rng.choice(["plain", "plain_memopt", "dict", "her", "her_info", "her_info"])
+    n_envs = rng.choice([1, 2])
+    size = rng.choice([8, 12, 40]) * n_envs if kind.startswith("her") else rng.choice([6, 10, 40])
+    return {"buffer": kind, "n_envs": n_envs, "buffer_size": size, "steps": rng.choice([6, 14, 30, 60]), "path": rng.choice(["str", "pathlib", "bytesio"]),
+            "seed": rng.choice([0, 5, 11])}
+
+
+def run_buffer(case):
+    """save_replay_buffer / load_replay_buffer: EVERY attribute of the buffer must come back (values, dtypes, types), for partly filled
+    and wrapped buffers, n_envs 1 and 2, all path kinds; an identically seeded sample() on both gives the same batch"""
+    import numpy as np
+    import torch as th
+
+    from stable_baselines3 import DQN
+    from stable_baselines3.common.envs import BitFlippingEnv
+    from stable_baselines3.common.vec_env import DummyVecEnv
+    from stable_baselines3.her.her_replay_buffer import HerReplayBuffer
+
+    th.set_num_threads(1)
+    sp = case["spec"]
+    goal = sp["buffer"] in ("dict", "her", "her_info")
+
+    def env_fn():
+        return BitFlippingEnv(n_bits=3, continuous=False, max_steps=4) if goal else make_env("discrete")
+
+    def build(seed):
+        kw = dict(learning_starts=1000, buffer_size=sp["buffer_size"], batch_size=4, train_freq=1, policy_kwargs=dict(net_arch=[4]), seed=seed, device="cpu")
+        if sp["buffer"].startswith("her"):
+            kw.update(replay_buffer_class=HerReplayBuffer, replay_buffer_kwargs=dict(n_sampled_goal=2, goal_selection_strategy="future", copy_info_dict=sp["buffer"] == "her_info"))
+        if sp["buffer"] == "plain_memopt":
+            kw.update(optimize_memory_usage=True, replay_buffer_kwargs=dict(handle_timeout_termination=False))
+        return DQN("MultiInputPolicy" if goal else "MlpPolicy", DummyVecEnv([env_fn for _ in range(sp["n_envs"])]), **kw)
+
+    problems = []
+    d = tempfile.mkdtemp(prefix="c09b_")
+    try:
+        with warnings.catch_warnings():
+            warnings.simplefilter("ignore")
+            model = build(sp["seed"])
+            model.learn(sp["steps"])
+            rb = model.replay_buffer
+            if sp["path"] == "bytesio":
+                target = io.BytesIO()
+                model.save_replay_buffer(target)
+                target.seek(0)
+            else:
+                target = os.path.join(d, "rb") if sp["path"] == "str" else pathlib.Path(os.path.join(d, "rb"))
+                model.save_replay_buffer(target)
+            other = build(sp["seed"] + 1)
+            other.load_replay_buffer(target, **({"truncate_last_traj": False} if sp["buffer"].startswith("her") else {}))
+            rb2 = other.replay_buffer
+            out = []
+            if type(rb2) is not type(rb):
+                out.append(f"buffer type {type(rb).__name__} became {type(rb2).__name__}")
+            missing = [k for k in vars(rb) if k not in vars(rb2) and k not in BUFFER_EXCLUDED]
+            if missing:
+                out.append(f"attributes missing after load: {missing}")
+            for k, v in vars(rb).items():
+                if k in BUFFER_EXCLUDED or k in missing:
+                    continue
+                attr_same("replay_buffer." + k, v, vars(rb2)[k], out)
+            if out:
+                problems.append(("oracle-replay-buffer-not-restored", "; ".join(out[:4])))
+            else:
+                # identically seeded sample() on both
+                def sample(b):
+                    np.random.seed(1234)
+                    th.manual_seed(1234)
+                    return b.sample(4)
+
+                try:
+                    s1, s2 = sample(rb), sample(rb2)
+                    outs = []
+                    for name in s1._fields:
+                        deep_same(getattr(s1, name), getattr(s2, name), "sample()." + name, outs)
+                    if outs:
+                        problems.append(("oracle-replay-buffer-sample-differs", "; ".join(outs[:3])))
+                except RuntimeError as e:
+                    if "Unable to sample before the end of the first episode" not in str(e):
+                        raise
+            # the HER default (truncate_last_traj=True) = the original after truncate_last_trajectory()
+            if sp["buffer"].startswith("her"):
+                if sp["path"] == "bytesio":
+                    target.seek(0)
+                third = build(sp["seed"] + 2)
+                third.load_replay_buffer(target)
+                rb.truncate_last_trajectory()
+                outt = []
+                for k, v in vars(rb).items():
+                    if k not in BUFFER_EXCLUDED:
+                        attr_same("replay_buffer(truncated)." + k, v, vars(third.replay_buffer).get(k), outt)
+                if outt:
+                    problems.append(("oracle-replay-buffer-not-restored", "; ".join(outt[:3])))
+            filled = int(rb.size())
+            wrapped = bool(rb.full)
+    finally:
+        shutil.rmtree(d, ignore_errors=True)
+    return {"problems": problems, "expr": "true", "filled": filled, "wrapped": wrapped}
+
+
+RUN = {"codec": run_codec, "model": run_model, "buffer": run_buffer}
+COMPARE = {"codec": compare_codec, "model": compare_model, "buffer": lambda c, im, mv: list(im["problems"])}
 
 
 def gen_case(rng, i):
@@ -902,6 +1015,8 @@ def main():
     # whole models with unusual-but-legal hyper-parameter values drawn per run
     for j in range(24 if chk.tier == "quick" else 300):
         cases.append({"kind": "model", "config": "random", "spec": gen_model_spec(chk.rng), "id": f"model-random-{j}"})
+    for j in range(16 if chk.tier == "quick" else 200):
+        cases.append({"kind": "buffer", "spec": gen_buffer_spec(chk.rng), "id": f"buffer-{j}"})
     if chk.tier == "thorough":
         for s in range(1, 9):
             for nm in names:
@@ -909,7 +1024,7 @@ def main():
     for i in range(n_cases):
         cases.append(gen_case(chk.rng, i))
     impls, results = run_cases(chk, cases)
-    distinct, hist, reported = set(), {"codec": 0, "model": 0, "node_kinds": {}, "models": []}, set()
+    distinct, hist, reported = set(), {"codec": 0, "model": 0, "buffer": 0, "node_kinds": {}, "models": [], "buffers": []}, set()
     for c, im, probs in zip(cases, impls, results):
         hist[c["kind"]] += 1
         if c["kind"] == "codec":
@@ -917,6 +1032,10 @@ def main():
                 tree_stats(spec, hist["node_kinds"])
             if "plain" in im and any(k in json.dumps(c["items"]) for k in ('"tuple"', '"np_float64"', '"int",')) and any(not p for p in im["plain"]) and any(im["plain"]):
                 distinct.add(json.dumps(c["items"], sort_keys=True))
+        elif c["kind"] == "buffer":
+            hist["buffers"].append(f"{c['spec']['buffer']}:n_envs={c['spec']['n_envs']}:size={c['spec']['buffer_size']}:steps={c['spec']['steps']}:{c['spec']['path']}"
+                                   + (":wrapped" if im.get("wrapped") else ""))
+            distinct.add(json.dumps(c["spec"], sort_keys=True))
         else:
             hist["models"].append(c["config"] if c["config"] != "random" else c["spec"]["algo"] + ":net_arch=" + json.dumps(c["spec"].get("net_arch")))
             distinct.add(json.dumps(c.get("spec") or c["config"], sort_keys=True) + str(c.get("seed")))
